@@ -2,6 +2,8 @@
   C10 — helper lemmas: a computation of the import model that cannot end in `Err.fault`.
 -/
 import Vita.C09.LemmasDf
+import Vita.C09.LemmasCat
+import Vita.C09.LemmasRead
 
 namespace Vita.C10
 open Vita.C09
@@ -179,24 +181,25 @@ theorem xAttrStep_noFault (st : XSt) (a : XAttr) : NoFault (xAttrStep st a) := b
   simp only []
   split <;> split <;> first | exact noFault_exc _ | exact noFault_pure _
 
-theorem xInstStep_noFault (o : NumOracle F) (filter : List Str → Bool) (k : Nat) (df : DF F) (r : List Str) :
-    NoFault (xInstStep { guards := true } o filter k df r) := by
-  unfold xInstStep
+theorem xInstStepH_noFault (o : NumOracle F) (hook : Hook) (k : Nat) (df : DF F) (r : List Str) :
+    NoFault (xInstStepH { guards := true } o hook k df r) := by
+  unfold xInstStepH
   split
   · exact noFault_pure _
-  · apply noFault_bind
+  · next r' _ =>
+    apply noFault_bind
     · simp only [Bool.true_and]
       split
       · exact noFault_pure _
       · next h =>
         simp only [ge_iff_le, decide_eq_true_eq, Nat.not_le] at h
-        rw [rotate?_ok _ r k h]
+        rw [rotate?_ok _ r' k h]
         exact noFault_ok _
-    · intro r'; exact readRecord_noFault o df r' false
+    · intro r''; exact readRecord_noFault o df r'' false
 
-theorem readXrff_noFault (o : NumOracle F) (filter : List Str → Bool) (doc : XDoc) :
-    NoFault (readXrff { guards := true } o filter doc) := by
-  unfold readXrff
+theorem readXrffH_noFault (o : NumOracle F) (hook : Hook) (doc : XDoc) :
+    NoFault (readXrffH { guards := true } o hook doc) := by
+  unfold readXrffH
   split
   · exact noFault_exc _
   · exact noFault_exc _
@@ -209,7 +212,7 @@ theorem readXrff_noFault (o : NumOracle F) (filter : List Str → Bool) (doc : X
       split
       · exact noFault_exc _
       · next insts =>
-        apply noFault_bind (noFault_foldlM _ (fun df r => xInstStep_noFault o filter _ df r) insts _)
+        apply noFault_bind (noFault_foldlM _ (fun df r => xInstStepH_noFault o hook _ df r) insts _)
         intro df
         apply noFault_bind (isValid_noFault df)
         intro v
@@ -274,10 +277,17 @@ def ReadTotalCsv (cfg : Cfg) : Prop :=
     NoFault (readCsv cfg o p bytes) ∧
     ∀ df, readCsv cfg o p bytes = .ok df → Valid df ∧ df.examples ≠ [] ∧ EqualInputs df
 
+/-- what `read_xrff` guarantees, for every hook (`filter_hook_t` may reject and may rewrite the record) -/
 def ReadTotalXrff (cfg : Cfg) : Prop :=
-  ∀ (F : Type) (o : NumOracle F) (filter : List Str → Bool) (doc : XDoc),
-    NoFault (readXrff cfg o filter doc) ∧
-    ∀ df n, readXrff cfg o filter doc = .ok (df, n) → Valid df ∧ EqualInputs df ∧ n = df.examples.length
+  ∀ (F : Type) (o : NumOracle F) (hook : Hook) (doc : XDoc),
+    NoFault (readXrffH cfg o hook doc) ∧
+    ∀ df n, readXrffH cfg o hook doc = .ok (df, n) → Valid df ∧ EqualInputs df ∧ n = df.examples.length
+
+/-- what `dataframe::read(path)` guarantees, whatever the extension of the file name -/
+def ReadTotalFile (cfg : Cfg) : Prop :=
+  ∀ (F : Type) (o : NumOracle F) (p : Params) (ext bytes : Str) (doc : XDoc),
+    NoFault (readFile cfg o p ext bytes doc) ∧
+    ∀ df n, readFile cfg o p ext bytes doc = .ok (df, n) → Valid df ∧ EqualInputs df ∧ n = df.examples.length
 
 /-- an oracle for which the letters used below are not numbers -/
 def LettersOnly (o : NumOracle F) : Prop := ∀ s : Str, s.length = 1 → s.all isAlpha = true → o.isNum s = false
@@ -306,5 +316,124 @@ theorem readCsvRecs_valid (cfg : Cfg) (o : NumOracle F) (outIdx : Option Nat) (h
         refine ⟨hvalid, ?_, valid_equalInputs _ hvalid⟩
         intro hnil
         simp [hnil] at hc
+
+
+theorem readXrffH_valid (o : NumOracle F) (hook : Hook) (doc : XDoc) (df : DF F) (n : Nat)
+    (h : readXrffH { guards := true } o hook doc = .ok (df, n)) :
+    Valid df ∧ EqualInputs df ∧ n = df.examples.length := by
+  unfold readXrffH at h
+  split at h
+  · cases h
+  · cases h
+  · next attrs instances =>
+    cases ha : List.foldlM xAttrStep ({} : XSt) attrs with
+    | error e => simp [ha, bind, Except.bind] at h
+    | ok st =>
+      simp only [ha, bind, Except.bind] at h
+      split at h
+      · cases h
+      · split at h
+        · cases h
+        · next insts =>
+          cases hi : List.foldlM (xInstStepH { guards := true } o hook
+              (if st.nOutput = 0 then st.index - 1 else st.outputIndex))
+              ({ cols := if st.nOutput = 0 then st.cols.getLast?.toList ++ st.cols.dropLast else st.cols } : DF F)
+              insts with
+          | error e => simp [hi] at h
+          | ok df' =>
+            simp only [hi] at h
+            cases hv : isValid df' with
+            | error e => simp [hv] at h
+            | ok v =>
+              simp only [hv, Bool.true_and] at h
+              split at h
+              · cases h
+              · next hc =>
+                simp only [pure, Except.pure, Except.ok.injEq, Prod.mk.injEq] at h
+                obtain ⟨rfl, rfl⟩ := h
+                simp only [Bool.not_eq_true', Bool.not_eq_false] at hc
+                have hvalid : Valid df' := by unfold Valid; rw [hv, hc]
+                exact ⟨hvalid, valid_equalInputs _ hvalid, by simp [hc]⟩
+
+/-- the labels `is_valid` accepts: no classes at all (regression), or every output is a class id below the
+    number of classes -/
+def LabelsOK (df : DF F) : Prop :=
+  df.classes.length = 0 ∨ ∀ e ∈ df.examples, ∃ l : Int, e.output = .int l ∧ 0 ≤ l ∧ l < df.classes.length
+
+theorem examplesValid_spec (cl n : Nat) : ∀ es : List (Example F), examplesValid cl n es = .ok true ↔
+    (∀ e ∈ es, e.input.length = n) ∧
+    (cl = 0 ∨ ∀ e ∈ es, ∃ l : Int, e.output = .int l ∧ 0 ≤ l ∧ l < cl) := by
+  intro es
+  induction es with
+  | nil => simp [examplesValid, pure, Except.pure]
+  | cons a es ih =>
+    unfold examplesValid
+    by_cases hlen : a.input.length = n
+    · simp only [hlen, bne_self_eq_false, Bool.false_eq_true, if_false]
+      by_cases hcl : cl = 0
+      · simp only [hcl, if_true] at ih ⊢
+        rw [ih]
+        simp [hlen]
+      · simp only [hcl, if_false]
+        cases ho : a.output with
+        | int l =>
+          simp only [label, ho, pure, Except.pure, bind, Except.bind]
+          by_cases hl : l < 0 ∨ (cl : Int) ≤ l
+          · have hl' : (decide (l < 0) || decide (l ≥ (cl : Int))) = true := by
+              rcases hl with h | h <;> simp [h]
+            simp only [hl', if_true]
+            constructor
+            · intro h; cases h
+            · intro h
+              rcases h.2 with h0 | h0
+              · first | exact h0.elim | exact absurd h0 hcl
+              · obtain ⟨l', hl1, hl2, hl3⟩ := h0 a (by simp)
+                rw [ho] at hl1
+                cases hl1
+                omega
+          · have hl' : (decide (l < 0) || decide (l ≥ (cl : Int))) = false := by
+              simp only [not_or, Int.not_lt, Int.not_le] at hl
+              simp [hl.1, hl.2]
+            simp only [hl', Bool.false_eq_true, if_false]
+            rw [ih]
+            simp only [hcl, false_or, List.mem_cons, forall_eq_or_imp, hlen, true_and]
+            constructor
+            · rintro ⟨h1, h2⟩
+              refine ⟨h1, ⟨l, ho, by omega, by omega⟩, h2⟩
+            · rintro ⟨h1, _, h2⟩
+              exact ⟨h1, h2⟩
+        | void =>
+          simp only [label, ho, throw, throwThe, MonadExceptOf.throw, bind, Except.bind]
+          constructor
+          · intro h; cases h
+          · intro h
+            rcases h.2 with h0 | h0
+            · first | exact h0.elim | exact absurd h0 hcl
+            · obtain ⟨l', hl1, _⟩ := h0 a (by simp)
+              rw [ho] at hl1; cases hl1
+        | dbl x =>
+          simp only [label, ho, throw, throwThe, MonadExceptOf.throw, bind, Except.bind]
+          constructor
+          · intro h; cases h
+          · intro h
+            rcases h.2 with h0 | h0
+            · first | exact h0.elim | exact absurd h0 hcl
+            · obtain ⟨l', hl1, _⟩ := h0 a (by simp)
+              rw [ho] at hl1; cases hl1
+        | str x =>
+          simp only [label, ho, throw, throwThe, MonadExceptOf.throw, bind, Except.bind]
+          constructor
+          · intro h; cases h
+          · intro h
+            rcases h.2 with h0 | h0
+            · first | exact h0.elim | exact absurd h0 hcl
+            · obtain ⟨l', hl1, _⟩ := h0 a (by simp)
+              rw [ho] at hl1; cases hl1
+    · have : (a.input.length != n) = true := by simpa using hlen
+      simp only [this, if_true, pure, Except.pure]
+      constructor
+      · intro h; cases h
+      · intro h; exact absurd (h.1 a (by simp)) hlen
+
 
 end Vita.C10
